@@ -163,3 +163,162 @@ Proof.
     repeat (destruct Ha as [<-|Ha]; [|]); try destruct Ha;
     repeat (destruct Hb as [<-|Hb]; [|]); try destruct Hb; vm_compute; intros E; try reflexivity; discriminate E.
 Qed.
+
+(* ================================================================================================== *)
+(* EXTENSION: the generated __init__ as the source spells it, the file-system side of secrets,
+   default kinds (model/EnvInit.v, proofs/EnvInitProofs.v).                                           *)
+From DW Require Import EnvInit T_EnvInitOrderAlg EnvInitProofs.
+
+(* Tie T for the ORDER of the preamble of the generated __init__: the table that
+   harness/tables/EnvInitOrderAlg.py reads from the CURRENT source text of environ/wizard.py
+   (every `Env.*` line emitted before `_vars = []`, with its guard) decodes to: Env.reload()/load_environ(),
+   then update_with_secret_values(_secrets_dir), then update_with_dotenv(Meta values, only when
+   `_env_file is None`), then update_with_dotenv(_env_file); the two update_with_* methods of
+   lookups.py do `cls.reload(values)` then `environ.update(values)`; after the field loop the only
+   statements are the ParseError handler and `raise MissingVars(cls, _vars)`.  Interpreting that
+   decoded order step by step IS the hand-written `prepare` of EnvModel.v, for every state, class and
+   arguments - so C18_reload / C18_overlay_value (dotenv over secrets over os.environ) are about the
+   order the source spells out now. *)
+Theorem C18_overlay_order_table :
+  decode_preamble env_init_preamble_v0 = Some [PLoad; PSecrets; PDotenvMeta; PDotenvArg] /\
+  env_update_with_v0 =
+    [(S "update_with_secret_values", [S "cls.reload(secret_values)"; S "environ.update(secret_values)"]);
+     (S "update_with_dotenv", [S "cls.reload(dotenv_values)"; S "environ.update(dotenv_values)"])] /\
+  env_init_after_v0 =
+    [(S "field_names", S "except", S "handle_err(e, cls, _name, _env_prefix, _env_var)");
+     (S "", S "if _vars", S "raise MissingVars(cls, _vars) from None")] /\
+  (forall st c a, prepare_steps [PLoad; PSecrets; PDotenvMeta; PDotenvArg] st c a = prepare st c a).
+Proof. exact (conj preamble_decoded (conj update_with_decoded (conj after_decoded prepare_steps_eq))). Qed.
+Print Assumptions C18_overlay_order_table.
+
+(* The per-field decision read from the source (guard `name is not MISSING or (name := lookup) is not
+   MISSING`, lookup_exact for explicit names / get_env otherwise on the prefixed name, else-arm
+   `if default / elif default_factory() / else add to the missing list`) decodes to
+   keyword > lookup > default > default_factory > missing, and interpreting that list is
+   resolve_field followed by the attribute binding (aval_of), for every state, field and default kind. *)
+Theorem C18_field_decision_table :
+  decode_field env_init_field_v0 env_init_lookup_forms_v0 = Some [FKwarg; FLookup; FDefault; FFactory; FMissing] /\
+  (forall st p prefix kw f k n,
+   f_default f = has_default k ->
+   decide [FKwarg; FLookup; FDefault; FFactory; FMissing] st p prefix kw f k n =
+     (fst (resolve_field st p prefix kw f),
+      fst (aval_of k n (snd (resolve_field st p prefix kw f))),
+      snd (aval_of k n (snd (resolve_field st p prefix kw f))))).
+Proof. exact (conj field_decoded decide_eq). Qed.
+Print Assumptions C18_field_decision_table.
+
+(* KEYWORD ARGUMENTS ALWAYS WIN, in any state (no invariant, no _reload needed), any class, any arguments,
+   whatever the environment / secrets / dotenv contain: a field passed as keyword is resolved to the
+   keyword WITHOUT any lookup (state unchanged); in an instance a source is the keyword iff the field
+   was passed; a field passed as keyword is never reported missing. *)
+Theorem C18_kwarg_wins :
+  (forall st p prefix kw f, In (f_name f) kw -> resolve_field st p prefix kw f = (st, SKwarg)) /\
+  (forall st c a,
+   match snd (instantiate st c a) with
+   | OInstance ss => Forall2 (kw_src (a_kwargs a)) (c_fields c) ss
+   | OMissing l => forall n, In n l -> ~ In n (a_kwargs a)
+   | OCrash => True
+   end).
+Proof. exact (conj kwarg_wins_field kwarg_wins_inst). Qed.
+Print Assumptions C18_kwarg_wins.
+
+(* ARGUMENTS OVERRIDE META: `_env_prefix`, `_secrets_dir`, `_env_file` when passed replace
+   Meta.env_prefix / secrets_dir / env_file completely: two classes that differ only in the overridden
+   Meta settings behave identically (same outcome, same state), in every state. *)
+Theorem C18_arg_overrides_meta :
+  forall st c c' a,
+  c_fields c = c_fields c' -> c_prio c = c_prio c' ->
+  (a_prefix a = None -> c_prefix c = c_prefix c') ->
+  (a_secrets a = None -> c_secrets c = c_secrets c') ->
+  (a_envfile a = EFDefault -> c_envfile c = c_envfile c') ->
+  instantiate st c a = instantiate st c' a.
+Proof. exact arg_overrides. Qed.
+Print Assumptions C18_arg_overrides_meta.
+
+(* Env.secret_values: raises ValueError iff one of the paths is a file; otherwise the dict is
+   merge_files of the per-directory dicts (what `prepare` overlays), i.e. per variable the LAST directory
+   that has a regular file of that name; within a directory the variable NAME is the file name and the
+   value is the content verbatim; entries that are not regular files and absent directories define nothing. *)
+Theorem C18_secret_values :
+  forall dirs,
+  (secret_values dirs = None <-> In SDIsFile dirs) /\
+  (forall e, secret_values dirs = Some e ->
+     e = merge_files (map dir_env dirs) /\ forall v, get e v = last_def (map dir_env dirs) v) /\
+  (forall es n, NoDup (map fst es) ->
+     (forall c, In (n, DEFile c) es -> get (rev (dir_env (SDDir es))) n = Some c) /\
+     ((forall c, ~ In (n, DEFile c) es) -> get (rev (dir_env (SDDir es))) n = None)) /\
+  (forall v, get (rev (dir_env SDAbsent)) v = None).
+Proof. exact secret_values_all. Qed.
+Print Assumptions C18_secret_values.
+
+(* Instantiation with `_secrets_dir=dirs` over the file system, after ANY history, _reload=True:
+   ValueError iff a path is a file; otherwise the outcome is admitted by (equal to, where deterministic)
+   the specification on os.environ (the user's edits) overlaid with the directories in order, then the
+   dotenv files; os.environ is untouched in BOTH cases. *)
+Theorem C18_secrets_fs :
+  forall os0 h c a dirs,
+  a_reload a = true ->
+  let st := run (init_state os0) h in
+  let e := overlay (user_edits os0 h) (map dir_env dirs) (eff_dotenv c a) in
+  (snd (instantiate_fs st c a dirs) = FValueError <-> In SDIsFile dirs) /\
+  (~ In SDIsFile dirs ->
+   exists o, snd (instantiate_fs st c a dirs) = FOk o /\
+     adm_outcome e c (set_secrets a (map dir_env dirs)) o /\
+     (deterministic e (c_prio c) (eff_prefix c a) (a_kwargs a) (c_fields c) = true ->
+      o = outcome_of (c_fields c) (ref_resolve e (c_prio c) (eff_prefix c a) (a_kwargs a) (c_fields c)))) /\
+  os_env (fst (instantiate_fs st c a dirs)) = user_edits os0 h.
+Proof. exact instantiate_fs_all. Qed.
+Print Assumptions C18_secrets_fs.
+
+(* DEFAULT_FACTORY FRESHNESS.  The attribute of a field is a factory result only if the field has a
+   default_factory and neither keyword nor variable supplied it (then the factory is called once, now);
+   a keyword / variable never calls it; a `default` value is the shared object.  Over a whole process
+   (any initial environment, any history of operations, classes, arguments, default kinds) no two
+   attributes of any instances ever receive the same factory call: all stamps are pairwise distinct. *)
+Theorem C18_factory_fresh :
+  (forall k n s,
+     (s = SKwarg -> aval_of k n s = (n, AKwarg)) /\
+     (forall var v, s = SEnv var v -> aval_of k n s = (n, AEnv var v)) /\
+     (forall j, snd (aval_of k n s) = AFresh j ->
+        k = DKFactory /\ s = SDefault /\ j = n /\ fst (aval_of k n s) = Datatypes.S n) /\
+     (k = DKFactory -> s = SDefault -> aval_of k n s = (Datatypes.S n, AFresh n)) /\
+     (k = DKValue -> s = SDefault -> aval_of k n s = (n, AShared))) /\
+  (forall items n, NoDup (flat_map stamps (stamp_all n items))) /\
+  (forall os ops, NoDup (flat_map stamps (stamp_all 0 (trace_items (init_state os) ops)))).
+Proof. exact (conj aval_of_spec (conj (fun items n => proj1 (stamp_all_fresh items n)) history_fresh)). Qed.
+Print Assumptions C18_factory_fresh.
+
+(* ---- non-vacuity of the extension ---------------------------------------------------------------- *)
+(* two secrets directories with an overlapping name, a sub-directory, an absent one; trailing newline kept *)
+Definition ex_dirs : list sdir :=
+  [SDDir [(S "MY_VAR", DEFile (S "one" ++ [ch 10])); (S "other", DEFile [])];
+   SDAbsent;
+   SDDir [(S "sub", DEOther); (S "MY_VAR", DEFile (S "two"))]].
+Example C18_secret_values_example :
+  secret_values ex_dirs = Some [(S "MY_VAR", S "two"); (S "other", [])] /\
+  secret_values (rev ex_dirs) = Some [(S "MY_VAR", S "one" ++ [ch 10]); (S "other", [])] /\
+  secret_values (ex_dirs ++ [SDIsFile]) = None.
+Proof. repeat split; vm_compute; reflexivity. Qed.
+
+(* dotenv over secrets over os.environ; keyword over all; a factory field called twice gets stamps 0, 1 *)
+Definition ex_dcls : cls :=
+  mkCls [dfield (S "my_var") ExNone DKNone; dfield (S "lst") ExNone DKFactory; dfield (S "shared") ExNone DKValue]
+        PScreaming [] [] [].
+Example C18_extension_example :
+  let os := [(S "MY_VAR", S "os")] in
+  let a := mkArgs [] true (EFFiles [[(S "MY_VAR", S "dotenv")]]) None None in
+  snd (instantiate_fs (init_state os) ex_dcls a ex_dirs)
+    = FOk (OInstance [SEnv (S "MY_VAR") (S "dotenv"); SDefault; SDefault]) /\
+  snd (instantiate_fs (init_state os) ex_dcls (mkArgs [] true EFDefault None None) ex_dirs)
+    = FOk (OInstance [SEnv (S "MY_VAR") (S "two"); SDefault; SDefault]) /\
+  snd (instantiate_fs (init_state os) ex_dcls (mkArgs [S "my_var"; S "lst"] true EFDefault None None) ex_dirs)
+    = FOk (OInstance [SKwarg; SKwarg; SDefault]) /\
+  snd (instantiate_fs (init_state os) ex_dcls a (ex_dirs ++ [SDIsFile])) = FValueError /\
+  stamp_all 0 (trace_items (init_state os)
+     [(OpInst ex_dcls a, [DKNone; DKFactory; DKValue]);
+      (OpInst ex_dcls (mkArgs [S "lst"] true EFDefault None None), [DKNone; DKFactory; DKValue]);
+      (OpInst ex_dcls a, [DKNone; DKFactory; DKValue])])
+    = [[AEnv (S "MY_VAR") (S "dotenv"); AFresh 0; AShared];
+       [AEnv (S "MY_VAR") (S "os"); AKwarg; AShared];
+       [AEnv (S "MY_VAR") (S "dotenv"); AFresh 1; AShared]].
+Proof. repeat split; vm_compute; reflexivity. Qed.
